@@ -29,7 +29,7 @@ theorems about `Cfg.rv v` for both values of `v`; the regression witnesses are a
 
 Not modelled here: listeners that re-enter (Model/ConnL.lean adds those that send / sendToDPID / disconnect; halting an event is nowhere), the handshake
 features-reply handler's version check (dead behind `read()`'s own version check), a custom
-OpenFlowConnectionArbiter (the default one always answers `core.openflow`), message types other than the eight of `Msg`,
+OpenFlowConnectionArbiter (the default one always answers `core.openflow`), message types other than the nine of `Msg`,
 multi-part stats replies (C17), framing (C02), xid wrap-around after 2^31-1 messages, the DeferredSender (stubbed: C20).
 Core only; total functions; the model itself has no recursion except `List.foldl`/`List.flatMap`, the history observers at the end recurse structurally on the trace. -/
 namespace Pox.Conn
@@ -60,6 +60,7 @@ inductive Msg where
   | portStatus (n : Nat)
   | echoRequest (x : Nat)
   | packetIn (n : Nat)
+  | echoReply (x : Nat)        -- ignored in both handler tables (handshake: no handler; connected: `handle_ECHO_REPLY` is `pass`)
   deriving DecidableEq, Repr
 
 inductive Op where
@@ -224,6 +225,7 @@ def dispatchHs (cfg : Cfg) (s : St) (c : Nat) (m : Msg) : St × List Out :=
     | some l => (s.setConn c { k with deferred := some (l ++ [n]) }, [])
   | .echoRequest x => sendRaw cfg s c [(OFPT_ECHO_REPLY, x)]
   | .packetIn _ => (s, [])
+  | .echoReply _ => (s, [])
 
 /-- `con.close()` by the task, which then drops `c` from its select list -/
 def close (cfg : Cfg) (s : St) (c : Nat) : St × List Out :=
@@ -247,6 +249,7 @@ def dispatchUp (cfg : Cfg) (s : St) (c : Nat) (m : Msg) : St × List Out :=
   | .portStatus n => (s, ev2 .portStatus c n)
   | .echoRequest x => sendRaw cfg s c [(OFPT_ECHO_REPLY, x)]
   | .packetIn n => (s, ev2 .packetIn c n)
+  | .echoReply _ => (s, [])
 
 def deliver (cfg : Cfg) (s : St) (c : Nat) (m : Msg) : St × List Out :=
   if s.n ≤ c then (s, [])
